@@ -122,7 +122,9 @@ def run(module, cfg=None, workers=8, simulate=None, depth=None, env=None, timeou
         i = out.find("*** Errors")
         if i < 0:
             i = out.find("Error:")
-        raise ToolError("TLC failed (%s):\n%s" % (r.cmd, out[max(0, i - 100):i + 2500] if i >= 0 else out[-2500:]))
+        j = out.rfind("Error:")
+        tail = out[max(0, j - 300):j + 2500] if j >= 0 else out[-2500:]
+        raise ToolError("TLC failed (%s):\n%s\n...\n%s" % (r.cmd, out[max(0, i - 100):i + 1200] if i >= 0 else "", tail))
     return r
 
 def write_ndjson(path, records):
